@@ -243,3 +243,102 @@ Proof.
   - vm_compute. discriminate.
   - vm_compute. reflexivity.
 Qed.
+
+(* ================================================================== *)
+(* The bridge (Model/Bridge.v): cells of the files --parse_table, load_rates,
+   tx_try_from--> Tx records --abs_tx--> ledger rows.  Rows that parse satisfy
+   the hypotheses the ledger theorems assume of their rows:
+     valid_tx (C05 vtx; positive / non-negative quantities and rates),
+     af_reg (t_af r) = regof (af_id (t_af r)) with regof default_id = false
+       (C04_only_listed_rejections, C05 row_ok', C15 goodaf),
+   for every row not addressed to the pseudo-affiliate "__global__" (those
+   are replaced by replace_global_splits before the ledger runs).
+   [tbl_wf tbl]: the affiliate table of the process at the start ([] in the
+   check) holds only entries whose registered flag agrees with their id;
+   [names_ok]: at most 1000 distinct affiliate ids sort before "default"
+   (the numbering puts "default" at 1000 and the bookkeeping model uses N). *)
+Theorem C07_valid_rows_after_parse : forall tbl fs ri0 txs tbl' inits,
+  tbl_wf tbl -> read_files tbl fs ri0 = Ok (txs, tbl') ->
+  let nm := naming_of inits txs in
+  names_ok nm = true ->
+  Forall (fun r => Tx.valid_tx r = true) (map (abs_tx nm) txs)
+  /\ regof nm default_id = false
+  /\ Forall (fun r => t_glob r = false -> af_reg (t_af r) = regof nm (af_id (t_af r))) (map (abs_tx nm) txs).
+Proof. exact BridgeProps.valid_rows_after_parse. Qed.
+Check C07_valid_rows_after_parse : forall tbl fs ri0 txs tbl' inits,
+  tbl_wf tbl -> read_files tbl fs ri0 = Ok (txs, tbl') ->
+  let nm := naming_of inits txs in
+  names_ok nm = true ->
+  Forall (fun r => Tx.valid_tx r = true) (map (abs_tx nm) txs)
+  /\ regof nm default_id = false
+  /\ Forall (fun r => t_glob r = false -> af_reg (t_af r) = regof nm (af_id (t_af r))) (map (abs_tx nm) txs).
+Print Assumptions C07_valid_rows_after_parse.
+
+(* The numbering of the affiliate ids preserves the order of the Rust id()
+   strings (bytewise lexicographic = String's Ord), with "default" at
+   default_id; the numbering of the securities is injective. *)
+Theorem C07_affiliate_order : forall nm a b,
+  names_ok nm = true -> In a (nm_affs nm) -> In b (nm_affs nm) ->
+  (aff_num nm a < aff_num nm b <-> bltb a b = true).
+Proof. exact BridgeProps.aff_num_order. Qed.
+Check C07_affiliate_order : forall nm a b,
+  names_ok nm = true -> In a (nm_affs nm) -> In b (nm_affs nm) ->
+  (aff_num nm a < aff_num nm b <-> bltb a b = true).
+Print Assumptions C07_affiliate_order.
+
+Theorem C07_default_affiliate_number : forall nm,
+  names_ok nm = true -> aff_num nm s_default_id = default_id.
+Proof. exact BridgeProps.aff_num_default. Qed.
+Check C07_default_affiliate_number : forall nm,
+  names_ok nm = true -> aff_num nm s_default_id = default_id.
+Print Assumptions C07_default_affiliate_number.
+
+Theorem C07_security_numbering_injective : forall nm a b,
+  In a (nm_secs nm) -> In b (nm_secs nm) -> sec_num nm a = sec_num nm b -> a = b.
+Proof. exact BridgeProps.sec_num_inj. Qed.
+Check C07_security_numbering_injective : forall nm a b,
+  In a (nm_secs nm) -> In b (nm_secs nm) -> sec_num nm a = sec_num nm b -> a = b.
+Print Assumptions C07_security_numbering_injective.
+
+(* Non-vacuity: the example table is read into two ledger rows (a USD purchase
+   by "spouse (R)", numbered 1001 and registered, at rate 1.31 for the shares
+   and the commission; a sale by the default affiliate, 1000) and the ledger
+   runs on them. *)
+Example C07_bridge_nonvacuous :
+  exists txs tbl',
+    read_files [] [(HeaderExample.header, [HeaderExample.row1; HeaderExample.row2])] 0 = Ok (txs, tbl') /\
+    names_ok (naming_of [] txs) = true /\
+    map (fun r => (af_id (t_af r), af_reg (t_af r), t_ri r)) (map (abs_tx (naming_of [] txs)) txs)
+    = [(1001, true, 0); (1000, false, 1)] /\
+    map (fun r => match t_act r with
+                  | Buy sh aps com rate crate => [this sh; this aps; this com; this rate; this crate]
+                  | Sell sh aps com rate crate _ => [this sh; this aps; this com; this rate; this crate]
+                  | _ => []
+                  end) (map (abs_tx (naming_of [] txs)) txs)
+    = [[10 # 1; 3 # 2; 0 # 1; 131 # 100; 131 # 100]; [4 # 1; 2 # 1; 99 # 100; 1 # 1; 1 # 1]]%Q /\
+    is_ok (read_and_run exact [] [] [(HeaderExample.header, [HeaderExample.row1; HeaderExample.row2])]) = true.
+Proof.
+  eexists. eexists. split; [vm_compute; reflexivity|].
+  split; [vm_compute; reflexivity|]. split; [vm_compute; reflexivity|].
+  split; [vm_compute; reflexivity|]. vm_compute. reflexivity.
+Qed.
+
+(* The rows the ledger is actually run on: for every security, the rows that
+   App.replace_global_splits hands to [run] (splits for all affiliates expanded
+   over the holders) all satisfy valid_tx and the registered-flag hypothesis -
+   provided no row other than a split names the pseudo-affiliate "__global__"
+   in its affiliate cell. *)
+Theorem C07_run_rows_ok : forall tbl fs ri0 txs tbl' inits s hi l,
+  tbl_wf tbl -> read_files tbl fs ri0 = Ok (txs, tbl') ->
+  let nm := naming_of inits txs in
+  names_ok nm = true -> only_splits_global txs ->
+  replace_global_splits hi (txs_of_sec s (sort_txs (map (abs_tx nm) txs))) = Ok l ->
+  Forall (fun r => Tx.valid_tx r = true /\ af_reg (t_af r) = regof nm (af_id (t_af r))) l.
+Proof. exact BridgeProps.run_rows_ok. Qed.
+Check C07_run_rows_ok : forall tbl fs ri0 txs tbl' inits s hi l,
+  tbl_wf tbl -> read_files tbl fs ri0 = Ok (txs, tbl') ->
+  let nm := naming_of inits txs in
+  names_ok nm = true -> only_splits_global txs ->
+  replace_global_splits hi (txs_of_sec s (sort_txs (map (abs_tx nm) txs))) = Ok l ->
+  Forall (fun r => Tx.valid_tx r = true /\ af_reg (t_af r) = regof nm (af_id (t_af r))) l.
+Print Assumptions C07_run_rows_ok.
